@@ -27,6 +27,7 @@ def IKinSpaceConstrained(screw_list, ee_home, ee_goal, theta_list,
         boolean: success
 
     """
+    theta_list = np.minimum(np.maximum(theta_list, joint_mins), joint_maxs)
     ee_current = FKinSpace(ee_home, screw_list, theta_list)
     error_vec = np.dot(Adjoint(ee_current),
             se3ToVec(MatrixLog6(np.dot(TransInv(ee_current), ee_goal))))
